@@ -37,6 +37,25 @@ def helper(items):
     print("never")
 '''
 
+# A project with a root marker, a package with re-exports and a sub-package, and several importers: the bad content is placed
+# in each *role* (package __init__, imported module, sub-package __init__, importer), because the import/re-export resolution of the
+# system analyses reads those files again, outside the per-file service loops.
+PKG_PROJECT = {
+    "requirements.txt": "",
+    "pkg/__init__.py": "from .core import Engine, helper_fn\nfrom .util import clamp\nfrom .sub import leaf_fn\n\n__all__ = [\"Engine\", \"helper_fn\", \"clamp\", \"leaf_fn\"]\n",
+    "pkg/core.py": "from .util import clamp\n\n\nclass Engine:\n    def __init__(self, size):\n        self.size = size\n\n    def run(self, n):\n        total = 0\n"
+                   "        for i in range(n):\n            if i % 2 == 0:\n                total += i * self.size\n            else:\n                total -= 1\n        return clamp(total, 0, 99)\n\n\n"
+                   "def helper_fn(x):\n    if x > 10:\n        return x * 2\n    return x\n",
+    "pkg/util.py": "def clamp(value, low, high):\n    if value < low:\n        return low\n    if value > high:\n        return high\n    return value\n",
+    "pkg/sub/__init__.py": "from .leaf import leaf_fn\n",
+    "pkg/sub/leaf.py": "from ..util import clamp\n\n\ndef leaf_fn(v):\n    while v > 3:\n        v -= 1\n    return clamp(v, 0, 3)\n",
+    "app_main.py": "from pkg import Engine, helper_fn\nfrom pkg.sub import leaf_fn\n\n\nclass Runner:\n    def __init__(self):\n        self.engine = Engine(3)\n\n    def go(self, n):\n"
+                   "        if n > 5:\n            return helper_fn(self.engine.run(n))\n        return leaf_fn(self.engine.run(1))\n",
+    "cli_main.py": "from pkg import clamp, leaf_fn\nimport pkg.core\n\n\ndef parse(argv):\n    if len(argv) > 1:\n        return clamp(int(argv[1]), 0, 100)\n    return leaf_fn(0)\n    print(pkg.core)\n",
+    "tools_main.py": "from pkg.core import Engine\nfrom pkg import util, clamp\nfrom pkg.sub.leaf import leaf_fn\n\n\ndef tool(n):\n    for i in range(n):\n        if clamp(i, 0, 2):\n            continue\n    return Engine(n), util, leaf_fn\n",
+}
+ROLES = ["pkg/__init__.py", "pkg/core.py", "pkg/sub/__init__.py", "pkg/sub/leaf.py", "app_main.py", "pkg/util.py"]
+
 REQ = ("From Coq Require Import List Arith.\nImport ListNotations.\nFrom PV Require Import Service.Isolation Deps.DepthCost.")
 
 
@@ -219,6 +238,57 @@ def main(tier):
                                  % (label, sec, [x for x in base[sec] if x not in (got.get(sec) or [])][:3] + [x for x in (got.get(sec) or []) if x not in base[sec]][:3]),
                                  dict(rep, section=sec, expected=base[sec][:20], got=(got.get(sec) or [])[:20]))
                     break
+    # ----- bad content in every role of a package project (package __init__, imported module, sub-package, importer)
+    stats["role_runs"] = 0
+    role_bads = [(l, c) for l, c in bads if l in ("unclosed_paren", "empty", "random_bytes", "bad_indent", "lone_else", "unclosed_triple", "nul_bytes", "elif_without_body",
+                                                  "invalid_utf8", "keyword_soup")]
+    role_bads += [("unclosed_reexport", b"from .core import Engine, helper_fn\nfrom .util import (clamp\n\n__all__ = [\"Engine\", \"helper_fn\"\n"),
+                  ("reexport_then_garbage", b"from .core import Engine\nfrom .util import clamp\ndef (:\n")]
+    if not thorough:
+        role_bads = [rb for i, rb in enumerate(role_bads) if i % 2 == rng.randrange(2) or rb[0].startswith(("unclosed_", "reexport"))]
+    all_args = ["analyze", "--json", "--no-open", "--min-complexity", "1", "--min-severity", "info", "."]
+
+    def write_pkg(name, replace=None, drop=None):
+        d = os.path.join(root, name)
+        for fn, src in PKG_PROJECT.items():
+            if fn == drop:
+                continue
+            os.makedirs(os.path.dirname(os.path.join(d, fn)), exist_ok=True)
+            with open(os.path.join(d, fn), "wb") as f:
+                f.write(replace[1] if replace and replace[0] == fn else src.encode())
+        return d
+
+    def role_one(item):
+        ri, role, label, content = item
+        d = write_pkg("role_%02d_%s" % (ri, label), replace=(role, content))
+        r = run_cli(all_args, d)
+        return role, label, content, r, latest_json(d)
+
+    role_keep = {}
+    role_base = {}
+    for role in ROLES:
+        # "what they would be without it": the same project with the role file removed
+        role_keep[role] = set(os.path.basename(f) for f in PKG_PROJECT if f.endswith(".py") and f != role and os.path.basename(f) != "__init__.py")
+        bd = write_pkg("rolebase_" + role.replace("/", "_"), drop=role)
+        rb = run_cli(all_args, bd)
+        role_base[role] = sections_for(latest_json(bd), role_keep[role])
+        check_run("package project without %s" % role, rb[0], rb[1], rb[2], rb[3], 4000, {"kind": "role-baseline", "role": role})
+    items = [(i, role, l, c) for i, (role, (l, c)) in enumerate((role, b) for role in ROLES for b in role_bads)]
+    with ThreadPoolExecutor(max_workers=8) as ex:
+        role_results = list(ex.map(role_one, items))
+    for role, label, content, r, data in role_results:
+        stats["role_runs"] += 1
+        rep = {"kind": "role", "role": role, "label": label, "content_hex": content[:600].hex(), "project": PKG_PROJECT}
+        if check_run("%s as %s" % (label, role), r[0], r[1], r[2], r[3], len(content) + 4000, rep):
+            got = sections_for(data, role_keep[role])
+            for sec in role_base[role]:
+                stats["isolation_sections_compared"] += 1
+                if got.get(sec) != role_base[role][sec]:
+                    ck.violation("'%s' as %s changed the %s results of the other files: %s"
+                                 % (label, role, sec, [x for x in role_base[role][sec] if x not in (got.get(sec) or [])][:3]
+                                    + [x for x in (got.get(sec) or []) if x not in role_base[role][sec]][:3]),
+                                 dict(rep, section=sec, expected=role_base[role][sec][:20], got=(got.get(sec) or [])[:20]))
+                    break
     # ----- every format is written for a project with a bad file
     fd = make_project("formats", {"zz_bad.py": b"def f(:\n"})
     for fmt in ("--json", "--yaml", "--csv", "--html"):
@@ -282,11 +352,12 @@ def main(tier):
                              {"kind": "depth-time", "micros": stats["complete_dag_micros"]})
     ck.samples = [{"label": l, "content_head": c[:60].decode("latin-1")} for l, c in bads[:6]]
     ck.cov.update({
-        "evaluations": stats["mixed_runs"] + stats["alone_runs"] + stats["format_runs"] + stats["nesting_runs"] + stats["depth_graphs"],
+        "evaluations": stats["mixed_runs"] + stats["alone_runs"] + stats["role_runs"] + stats["format_runs"] + stats["nesting_runs"] + stats["depth_graphs"],
         "distinct_nontrivial": stats["bad_inputs"],
         "rule": "malformed stream (syntax errors, truncations, bit flips, binary, encodings, BOM, CR/CRLF, very long line, deep parentheses) each "
                 "analysed alone and mixed into a project of 5 good files (all analyses), report sections of the good files compared with the "
-                "baseline; 4 output formats; nesting depth 40..320 of if/for/try; calculateMaxDepth vs its Coq model on random graphs. "
+                "baseline; malformed content in every role of a package project (package __init__ with re-exports, imported module, sub-package "
+                "__init__, leaf, importer) compared with the project without that file; 4 output formats; nesting depth 40..320 of if/for/try; calculateMaxDepth vs its Coq model on random graphs. "
                 "This stream is evidence for the un-modelled part (tree-sitter, Go runtime, OS); it is a test, not a proof.",
         "input_distribution": stats, "disagreements_checked": len(ck.violations),
     })
